@@ -2,6 +2,7 @@ package zzverif
 
 import (
 	"bytes"
+	"errors"
 	"io"
 	"math"
 	"sort"
@@ -19,7 +20,16 @@ type SaveLoadPlan struct {
 	MaxChunk  int    `json:"max_chunk"`
 	CleanUp   bool   `json:"cleanup"`            // run CleanUp on the source before saving
 	ReadAdv   int64  `json:"read_adv,omitempty"` // the stream is slow: every Read of the load moves the clock by this much
+	// Fault (separate, relaxed configuration): "truncate" - the stream ends early; "readerr" - a Read
+	// fails after FaultAt per mille of the bytes; "writeerr" - a Write of the save fails after that
+	// share and what was written until then is loaded. C19 does not speak about failing streams: the
+	// save / load results are only counted, but whatever is loaded must still be a saved, unexpired
+	// entry with its deadlines.
+	Fault   string `json:"fault,omitempty"`
+	FaultAt int    `json:"fault_at,omitempty"`
 }
+
+var errStream = errors.New("verif: injected stream error")
 
 // simStream is the simulated "disk": writes are kept; reads come back in short, irregular chunks,
 // sometimes delivering the last bytes together with io.EOF.
@@ -31,9 +41,25 @@ type simStream struct {
 	Short    int
 	EOFWith  int
 	onRead   func()
+	// fault injection
+	writeBudget int // >= 0: Write fails once this many bytes were written (-1: never)
+	readBudget  int // >= 0: bytes that can still be read before the fault (-1: never)
+	readFault   string
+	wroteErr    bool
 }
 
-func (s *simStream) Write(p []byte) (int, error) { return s.buf.Write(p) }
+func (s *simStream) Write(p []byte) (int, error) {
+	if s.writeBudget >= 0 {
+		if len(p) > s.writeBudget {
+			n, _ := s.buf.Write(p[:s.writeBudget])
+			s.writeBudget = 0
+			s.wroteErr = true
+			return n, errStream
+		}
+		s.writeBudget -= len(p)
+	}
+	return s.buf.Write(p)
+}
 func (s *simStream) Read(p []byte) (int, error) {
 	if len(p) == 0 {
 		return 0, nil
@@ -41,7 +67,16 @@ func (s *simStream) Read(p []byte) (int, error) {
 	if s.buf.Len() == 0 {
 		return 0, io.EOF
 	}
+	if s.readBudget == 0 {
+		if s.readFault == "readerr" {
+			return 0, errStream
+		}
+		return 0, io.EOF // truncated
+	}
 	n := len(p)
+	if s.readBudget > 0 && n > s.readBudget {
+		n = s.readBudget
+	}
 	if s.maxChunk > 0 {
 		c := 1 + s.rng.Intn(s.maxChunk)
 		if c < n {
@@ -54,6 +89,9 @@ func (s *simStream) Read(p []byte) (int, error) {
 		s.onRead()
 	}
 	m, _ := s.buf.Read(p[:n])
+	if s.readBudget > 0 {
+		s.readBudget -= m
+	}
 	if s.buf.Len() == 0 && s.rng.Bool() {
 		s.EOFWith++
 		return m, io.EOF
@@ -83,10 +121,25 @@ func (s *seqState) saveLoad(w *simrt.World, sc *SeqCase) {
 			savedWeight += uint64(e.W)
 		}
 	}
-	st := &simStream{rng: simrt.NewRng(pl.ChunkSeed, 77), maxChunk: pl.MaxChunk}
+	st := &simStream{rng: simrt.NewRng(pl.ChunkSeed, 77), maxChunk: pl.MaxChunk, writeBudget: -1, readBudget: -1}
+	faulty := pl.Fault != ""
+	if pl.Fault == "writeerr" {
+		st.writeBudget = pl.FaultAt // bytes
+	}
 	if err := otter.SaveCacheTo(r.C, st); err != nil {
-		m.fail(props, "save.error", -1, "SaveCacheTo failed on a healthy stream: %v", err)
-		return
+		if !faulty {
+			m.fail(props, "save.error", -1, "SaveCacheTo failed on a healthy stream: %v", err)
+			return
+		}
+		r.fault("stream-write-error")
+		m.Probes["save-returned-the-stream-error"]++
+	} else if st.wroteErr {
+		m.Probes["save-swallowed-a-stream-error"]++
+	}
+	if pl.Fault == "truncate" || pl.Fault == "readerr" {
+		st.readFault = pl.Fault
+		st.readBudget = st.buf.Len() * pl.FaultAt / 1000
+		r.fault("stream-" + pl.Fault)
 	}
 	// events caused by the save itself (maintenance under Hottest)
 	evs := r.Events[s.evStart:]
@@ -112,9 +165,27 @@ func (s *seqState) saveLoad(w *simrt.World, sc *SeqCase) {
 		// a slow stream: the clock moves while LoadCacheFrom reads, so "load time" is an interval
 		st.onRead = func() { r.fault("stream-read-takes-time"); r.Advance(pl.ReadAdv) }
 	}
-	if err := otter.LoadCacheFrom(tr.C, st); err != nil {
-		m.fail(props, "load.error", -1, "LoadCacheFrom failed on a healthy stream: %v", err)
+	var loadErr error
+	panicked := func() (p any) {
+		defer func() { p = recover() }()
+		loadErr = otter.LoadCacheFrom(tr.C, st)
+		return nil
+	}()
+	if panicked != nil {
+		if !faulty {
+			panic(panicked)
+		}
+		m.Probes["load-panicked-on-a-faulty-stream"]++ // an observation, not a verdict: C19 does not cover it
 		return
+	}
+	if loadErr != nil {
+		if !faulty {
+			m.fail(props, "load.error", -1, "LoadCacheFrom failed on a healthy stream: %v", loadErr)
+			return
+		}
+		m.Probes["load-returned-an-error-on-a-faulty-stream"]++
+	} else if faulty {
+		m.Probes["load-returned-nil-on-a-faulty-stream"]++
 	}
 	st.onRead = nil
 	m.now = w.Now
@@ -184,7 +255,13 @@ func (s *seqState) saveLoad(w *simrt.World, sc *SeqCase) {
 	if cfg.bounded() {
 		tmax = tcfg.Max
 	}
-	if savedWeight <= tmax && savedWeight <= srcMax {
+	if faulty {
+		// only a prefix of the stream arrived: nothing is demanded to be there, the bound still holds
+		m.Probes["saveload-faulty-stream-entries-loaded"] += len(got)
+		if gotWeight > tmax {
+			m.fail(withProp(props, "C04"), "load.bound", -1, "target holds weight %d > its maximum %d", gotWeight, tmax)
+		}
+	} else if savedWeight <= tmax && savedWeight <= srcMax {
 		m.Probes["saveload-fits"]++
 		for _, k := range sortedKeys(live) {
 			src := live[k]
